@@ -387,7 +387,11 @@ static RunResult dkg_execute_inner(const Plan &plan, const std::vector<uint64_t>
 	W.bnet->filter = [filt, Wp](size_t s, size_t d, const Unit &u, std::vector<Unit> &o){ filt(Wp->bnet.get(), s, d, u, o); };
 	std::vector<uint64_t> *asp = &all_sent;
 	W.unet->tap = [asp](size_t src, size_t, const Unit &){ (*asp)[src]++; };
-	if (!getenv("TMCGSIM_TRACE")) W.bnet->tap = [asp](size_t src, size_t, const Unit &){ (*asp)[src]++; };
+	{
+		bool tr = getenv("TMCGSIM_TRACE") != NULL;
+		W.bnet->tap = [asp, Wp, tr](size_t src, size_t dst, const Unit &u){ (*asp)[src]++;
+			if (tr && u.ints.size() != 5) printf("BNET odd unit %zu->%zu size %zu at %lld ms\n", src, dst, u.ints.size(), (long long)Wp->S.now_ms); };
+	}
 	// messages to sign: 0, 1, q-1, q, random
 	{
 		int64_t mc = plan.get("msgclass", 0); size_t nm = (size_t)std::max<int64_t>(1, std::min<int64_t>(3, plan.get("nmsg", 1)));
@@ -414,8 +418,6 @@ static RunResult dkg_execute_inner(const Plan &plan, const std::vector<uint64_t>
 		// itself, so the secret 0 cannot be reconstructed (noted in DESIGN.md, observation O2) - avoided
 		if (W.t == 0 && !zcmp_ui(W.vss_secret, 0)) mpz_set_ui(W.vss_secret, 1);
 	}
-	if (getenv("TMCGSIM_TRACE"))
-		W.bnet->tap = [Wp](size_t src, size_t dst, const Unit &u){ if (u.ints.size() != 5) { printf("BNET odd unit %zu->%zu size %zu at %lld ms\n", src, dst, u.ints.size(), (long long)Wp->S.now_ms); } };
 	bool private_timeout = false; bool *ptp = &private_timeout;
 	W.unet->on_timeout = [Wp, ptp](size_t dst, size_t src){ if (src < Wp->n && !Wp->faulty[dst] && !Wp->faulty[src]) *ptp = true; };
 	int64_t skew = plan.get("skew", 0);
